@@ -21,7 +21,9 @@ TRUSTED_COMMON = [
 ]
 
 
-NORMAL_FORMS = (("2", "new helpers inlined, new temporaries substituted"), ("1", "new helpers inlined"), ("0", "as written"))
+# The tree as written ("0") is deliberately not among the forms: where it differs from form "1" the tree contains new helpers, and most rules do not look into helpers they do
+# not know -- on that form they would pass *because* the code moved out of their sight, which would hide a violation found on the other forms.
+NORMAL_FORMS = (("2", "new helpers inlined, new temporaries substituted"), ("1", "new helpers inlined"))
 
 
 def _attempt(prop, tier, repo_root, mod, level):
@@ -35,7 +37,7 @@ def _attempt(prop, tier, repo_root, mod, level):
     except AnalysisError as e:
         return ctx, e
     except Exception as e:      # an internal error on one normal form must not hide a verdict on another
-        if level == "0":
+        if level == NORMAL_FORMS[-1][0]:
             raise
         return ctx, AnalysisError(f"internal: {type(e).__name__}: {e}")
 
